@@ -103,7 +103,20 @@ fn check_sequence_spelled<F: Family>(pkts: Vec<F::Packet>, big: bool, spelled: b
         if spelled {
             let mut w = crate::model::normalize(&F::project(p));
             let orig = w.clone();
-            let tags = crate::mutate::respell(&mut w, t, false);
+            let mut tags = crate::mutate::respell(&mut w, t, false);
+            // variable byte integers wider than necessary, where every front-end takes them: the remaining length of any
+            // packet, and the property length of the types that count it at its wire width (all but PUBLISH, SUBSCRIBE,
+            // SUBACK and UNSUBACK, which size what follows from the canonical width - DESIGN.md §10)
+            if t.chance(1, 4) {
+                w.rl_width = 2 + t.pick(3) as u8;
+                tags.push("non-minimal:remaining-length");
+            }
+            if !matches!(w.typ(), 3 | 8 | 9 | 11) && t.chance(1, 3) {
+                if let Some(ps) = crate::mutate::main_props_mut(&mut w) {
+                    ps.width = 2 + t.pick(3) as u8;
+                    tags.push("non-minimal:property-length");
+                }
+            }
             // the order of the user properties among themselves is part of the packet's value: put them back into
             // their original order in whatever slots the shuffle gave to user properties
             for will in [false, true] {
@@ -469,6 +482,9 @@ pub fn run(env: &mut Env) -> RunResult {
     env.require("c08.respelled.v5", "spelling:ack:explicit-empty-properties");
     env.require("c08.respelled.v5", "spelling:ack:reason-only");
     env.require("c08.respelled.v5", "spelling:properties:shuffled");
+    env.require("c08.respelled.v5", "spelling:non-minimal:property-length");
+    env.require("c08.respelled.v5", "spelling:non-minimal:remaining-length");
+    env.require("c08.respelled.v3", "spelling:non-minimal:remaining-length");
     let sizes: Vec<Input> = [126u64, 127, 128, 129, 16_382, 16_383, 16_384, 16_385, 16_386, 2_097_150, 2_097_151, 2_097_152, 2_097_153, 2_097_154, 2_097_155, 2_097_156]
         .iter()
         .map(|x| Input::Nums(vec![*x]))
